@@ -135,6 +135,13 @@ pub fn curated() -> Vec<(&'static str, Spec, bool)> {
     add("root_mid_token3", true, vec![r("a*b"), r("a*c")]);
     add("root_mid_token4", true, vec![r("([0-9],)*;"), r("([0-9],)*\\.")]);
     add("root_mid_token5", true, vec![r("(a+b)*c"), s("(a+b)*-")]);
+    // classes anchored at 0x00 / ending at 0xff on a non-looping edge followed by an accept, and
+    // loops over a single range 0x00..=hi (one-sided comparisons)
+    add("class_from_nul", true, vec![r("\\\\[\\x00-\\x7F]"), r("[^\\\\]")]);
+    add("class_from_nul2", true, vec![r("e[\\x00-\\x1f]"), r("[a-zé€]")]);
+    add("class_to_max", false, vec![Pat::bregex(b"q[\\x80-\\xff]"), Pat::bregex(b"[a-z]")]);
+    add("loop_from_nul", true, vec![r("«[\\x00-\\x7F]*»"), r("<[\\x00-\\x3b]*>"), r("[a-z]")]);
+    add("loop_from_nul_b", false, vec![Pat::bregex(b"\\xFF[^\\xFF]*\\xFF"), Pat::bregex(b"[a-z]+")]);
     // skips recognised by a late-accept state (the skip ends in a look-ahead assertion)
     add("skip_la_eol", true, vec![s("//[^\n]*(?m:$)").greedy(), r("[a-z]+"), t("\n"), t("/")]);
     add("skip_la_end", true, vec![s("#[a-z]*$"), r("[a-z]+"), t("#").prio(1)]);
